@@ -222,20 +222,22 @@ def generate(rng, tier):
         cuts = sorted({r.randrange(1, max(2, est)) for _ in range(ncut)})
         steps.append({"frames": grp, "cuts": cuts, "gaps": [r.choice([0, 0, 0.0005, 0.01, 0.1]) for _ in cuts],
                       "pause": r.choice([0, 0, 0, 0.001, 0.02, 0.3])})
-    client = {"settings": {"iws": r.choice([None, None, 25, 100, 1000])},
+    client = {"settings": {"iws": r.choice([None, 1000, 5000]) if big else r.choice([None, None, 25, 100, 1000])},
               "ack_mode": r.choice(["now", "now", "lazy"]), "ack_every": r.choice([0.01, 0.05, 0.4]),
               "streams": streams, "steps": steps,
               "finish": {"timeout": 60.0, "close": r.choice(["goaway", "goaway", "fin", "rst"])}}
 
     origin = {"kind": okind, "responses": responses, "connect_delay": r.choice([0.0, 0.0, 0.01, 0.2])}
     if okind == "h2":
-        origin["settings"] = {"mcs": r.choice([None, None, 1, 1, 2, 3, 5, 100]), "iws": r.choice([None, None, 20, 100, 1000])}
+        origin["settings"] = {"mcs": r.choice([None, None, 1, 1, 2, 3, 5, 100]),
+                              "iws": r.choice([None, 1000, 5000]) if big else r.choice([None, None, 20, 100, 1000])}
         origin["settings_delay"] = r.choice([0, 0, 0, 0.02, 0.3])
         origin["ack_mode"] = r.choice(["now", "now", "lazy"])
         origin["ack_every"] = r.choice([0.01, 0.05, 0.4])
         ch = []
         for _ in range(r.choice([0, 0, 1, 1, 2])):
             ch.append({"after": r.randrange(1, n + 1), "mcs": r.choice([0, 1, 1, 2, 3, 100]), "delay": r.choice([0, 0, 0.01, 0.2])})
+        ch.sort(key=lambda c: (c["after"], c["delay"]))
         if ch and ch[-1]["mcs"] == 0:
             ch.append({"after": ch[-1]["after"], "mcs": r.choice([1, 2]), "delay": ch[-1]["delay"] + r.choice([0.05, 0.5, 2.0])})
         if origin["settings"]["mcs"] == 0 and not ch:
@@ -439,6 +441,9 @@ def run(sc, keep_log=False):
             for hc in obs.h2clients:
                 if hc.stream_queue:
                     obs.waited.update(hc.stream_queue.keys())
+            if type(event).__name__ == "ConnectionClosed" and event.connection is not handler.client:
+                obs.server_close_events += 1
+        obs.server_close_events = 0
         w.event_listeners.append(on_event)
 
         def planner(host, port, n, proto):
@@ -491,6 +496,21 @@ def run(sc, keep_log=False):
             raise W.HarnessError(f"client negotiated {tls.alpn!r}, wanted h2")
         cl = HP.H2Client(w, tls, cspec)
         obs.client = cl
+
+        def at_quiescence():
+            # state of the upstream side when the client has stopped waiting (before it closes)
+            obs.upstream_at_quiescence = [
+                {"ordinal": o.ordinal, "alive": not o.closed and o.proto_error is None and o.goaway_tx is None,
+                 "has_capacity": o.has_capacity(), "open": len(o.open), "limit": o.last_mcs_sent}
+                for o in obs.origins if okind == "h2"]
+            obs.queued_at_quiescence = sorted(sid for hc in obs.h2clients for sid in hc.stream_queue)
+            obs.tcp_ended_at_quiescence = sum(1 for o in obs.origins if o.sim_conn.peer_eof or o.sim_conn.peer_reset)
+            obs.server_close_events_at_quiescence = obs.server_close_events
+        obs.tcp_ended_at_quiescence = 0
+        obs.server_close_events_at_quiescence = 0
+        cl.before_close = at_quiescence
+        obs.upstream_at_quiescence = []
+        obs.queued_at_quiescence = []
         await cl.start()
         await cl.run_steps()
         await cl.finish()
@@ -670,11 +690,27 @@ def oracle(sc, obs):
         scripted_fail = bool(rsp.get("rst") or rsp.get("leave") or rsp.get("truncate"))
         if fully_sent and not has_outcome and not client_dead:
             sid = cl.sid_of.get(k)
-            add("stream_lost", {"waited_for_capacity": sid in obs.waited, "upstream_fault": upstream_fault,
-                                "origin": okind, "reached_origin": k in up},
+            alive = [u for u in obs.upstream_at_quiescence if u["alive"]]
+            if okind == "h2" and k not in up and alive and not any(u["has_capacity"] for u in alive):
+                # the origin's own announcements leave no room for another stream: waiting is what the statement asks for
+                P_("still_waiting_legitimately")
+                continue
+            tcp_ended = obs.tcp_ended_at_quiescence
+            seen = obs.server_close_events_at_quiescence
+            if upstream_fault is not None and k not in up and (sid in obs.queued_at_quiescence or sid in obs.waited):
+                # was waiting in Http2Client.stream_queue when the upstream connection ended (GOAWAY / close)
+                key = {"kind": "queued_when_upstream_connection_ended"}
+            elif upstream_fault == "tcp_close" and seen < tcp_ended:
+                key = {"kind": "upstream_close_event_never_delivered", "eager_tasks": bool(sc.get("eager"))}
+            else:
+                key = {"kind": "other", "waited_for_capacity": sid in obs.waited, "still_queued": sid in obs.queued_at_quiescence,
+                       "upstream_connection_ended": upstream_fault is not None, "origin": okind, "reached_origin": k in up}
+            add("stream_lost", key,
                 f"stream {k} (client stream id {sid}) was sent completely but got neither a response nor a reset within "
                 f"{sc['client'].get('finish', {}).get('timeout', 60)} s of quiescence; waited_for_capacity={sid in obs.waited} "
-                f"upstream_fault={upstream_fault} reached_origin={k in up}")
+                f"still_queued={sid in obs.queued_at_quiescence} upstream_fault={upstream_fault} reached_origin={k in up} "
+                f"upstream connections ended by the origin={tcp_ended}, ConnectionClosed(server) events seen by the "
+                f"layers={seen}")
             continue
         if not fully_sent:
             continue
